@@ -64,7 +64,7 @@ pub fn specs() -> Vec<CheckSpec> {
             id: "C08",
             engine: "opsim",
             level: "exploration",
-            owns: &["commit-reject", "commit-accept", "lookup", "listing", "abandon-trace"],
+            owns: &["commit-reject", "commit-accept", "lookup", "listing", "abandon-trace", "read-exact", "missing-content"],
             runs: (3000, 150_000),
             rule: "a case = prior state of the key (absent/present/removed) x one commit with declared size in {len, len-1, len+1, 0, len+1MiB} and/or declared integrity in {correct, wrong digest, other algorithm, multi-hash} x chunking x entry point x flavour, followed by lookups through all flavours. Non-trivial = the declaration mismatched (a rejection was demanded); distinct by log hash",
             assumptions: A_COMMON,
@@ -109,7 +109,7 @@ pub fn specs() -> Vec<CheckSpec> {
             id: "C14",
             engine: "opsim",
             level: "exploration",
-            owns: &["abandon-trace", "lookup", "listing"],
+            owns: &["abandon-trace", "lookup", "listing", "read-exact", "missing-content"],
             runs: (2500, 120_000),
             rule: "a case = writers abandoned after creation / after k chunks / while a background write is in flight (async poll-once-then-drop) / after flush / after close / after a rejected commit, interleaved with successful ops; index snapshot before vs after and tmp/ drained. Non-trivial = >= 1 writer abandoned after receiving data",
             assumptions: A_COMMON,
